@@ -446,7 +446,7 @@ func checkC08(t *testing.T, sc *Scenario) *Verdict {
 			cp := &c08Checkpoint{at: i, final: op.Arg == "final", disk: DiskFiles(), open: e.OpenDocs(), reverted: map[string]bool{}, folders: e.CurFolders(), plugin: sc.Plugin}
 			for p, r := range e.Reverted {
 				if r {
-					cp.reverted[URI(p)] = true
+					cp.reverted[ViewURI(p)] = true
 				}
 			}
 			if len(dirty) == 0 {
@@ -594,7 +594,7 @@ func c08DirtyCheck(t *testing.T, v *Verdict, cp *c08Checkpoint) string {
 	files = append(files, File{Path: cp.dirty, Data: buf})
 	fb := Run(t, &Scenario{Prop: "C08", Files: files, Folders: cp.folders, Plugin: cp.plugin}, Canonical(), Hooks{})
 	v.absorb(fb)
-	uri := URI(cp.dirty)
+	uri := ViewURI(cp.dirty)
 	want := onlyType1(fb.View[uri], true)
 	tag := "buffer-syntax-errors"
 	if len(want) == 0 {
